@@ -52,7 +52,7 @@ FIVE_YEARS = 157766400
 
 # ---- random DSDL namespaces ---------------------------------------------------------------------------------------------
 ROOTS = ['nsa', 'zoo', 'regx', 'acme', 'm1']
-SUBS = ['sub', 'top', 'inner', 'aa', 'zz', 'b2', 'mid', 'u7', 'u07', 'u007', 'x10', 'x010']   # u7/u07...: tie under natural sort
+SUBS = ['sub', 'top', 'inner', 'aa', 'zz', 'b2', 'mid', 'u7', 'u07', 'u007', 'x10', 'x010', 'Abc', 'abc']   # u7/u07...: tie under natural sort
 SHORTS = ['T7', 'T07', 'V1x', 'V01x', 'Alpha', 'Beta', 'Gamma', 'Delta', 'Eps', 'Zeta', 'Eta', 'Theta', 'Iota', 'Kappa', 'A', 'Z9', 'Mu_x']
 PRIMS = ['uint8', 'int16', 'float32', 'bool', 'uint7', 'float64', 'uint8[3]', 'int32[<=4]', 'bool[5]', 'float16']
 
@@ -208,7 +208,8 @@ def _t(ns, short, fields=None):
 
 WITNESS_NATSORT_NS = dict(root='nat', lookup=[], types=[
     _t(['nat', 'unit7'], 'T7'), _t(['nat', 'unit07'], 'T07'), _t(['nat', 'unit007'], 'T007'), _t(['nat', 'x10'], 'A'),
-    _t(['nat', 'x010'], 'A'), _t(['nat', 'unit7'], 'T07'), _t(['nat'], 'V1'), _t(['nat'], 'V01')])
+    _t(['nat', 'x010'], 'A'), _t(['nat', 'unit7'], 'T07'), _t(['nat'], 'V1'), _t(['nat'], 'V01'),
+    _t(['nat', 'Abc'], 'P'), _t(['nat', 'abc'], 'Q')])
 
 WITNESS_NS = dict(root='ns', lookup=[], types=[
     dict(ns=['ns'], short='A', major=1, minor=0, kind='struct', fields=[('prim', 'uint8')], resp=[])])
